@@ -11,17 +11,17 @@ func init() {
 			add := func(sel, tcp, p, q int) {
 				js = append(js, sym.Job{Harness: "VH_C02_decode", Params: map[string]int{"sel": sel, "tcp": tcp, "p": p, "q": q}, AbstractCRC: tcp == 0 && p+q > 16})
 			}
-			coilP, regP := ints(1, 2, 3, 8, 249, 250), ints(2, 4, 6, 248, 250)
-			idP := [][2]int{{1, 0}, {1, 1}, {2, 0}, {3, 2}, {100, 100}, {249, 0}, {200, 49}}
+			coilP, regP := ints(1, 2, 3, 8, 249, 250, 251, 255), ints(2, 4, 6, 248, 250, 252, 254)
+			idP := [][2]int{{1, 0}, {1, 1}, {2, 0}, {3, 2}, {100, 100}, {249, 0}, {200, 49}, {252, 0}, {253, 0}, {255, 0}, {254, 1}}
 			if th {
-				coilP, regP = rng(1, 250), nil
-				for p := 2; p <= 250; p += 2 {
+				coilP, regP = rng(1, 255), nil
+				for p := 2; p <= 254; p += 2 {
 					regP = append(regP, p)
 				}
 				idP = nil
-				for p := 1; p <= 249; p += 3 {
+				for p := 1; p <= 255; p += 2 {
 					for _, q := range []int{0, 1, 2, 249 - p} {
-						if p+q <= 249 {
+						if q >= 0 && p+q <= 256 {
 							idP = append(idP, [2]int{p, q})
 						}
 					}
@@ -67,10 +67,10 @@ func init() {
 			return js
 		},
 		Bounds: map[string]string{
-			"quick":    "well-formed responses of all 10 functions x {TCP,RTU}: header fields, addresses, counts, payload bytes symbolic; coil payloads {1,2,3,8,249,250} bytes, register payloads {2,4,6,248,250} bytes, FC17 (id,additional) lengths {(1,0),(1,1),(2,0),(3,2),(100,100),(249,0),(200,49)}; all 128x256 exception frames (function and code symbolic); high-bit and byte-count-mismatch obligations on every frame of length 8..24,255..264 (TCP) / 2..20,251..260 (RTU)",
-			"thorough": "coil payloads 1..250, register payloads 2..250 (even), FC17 id lengths 1..249 step 3 with additional {0,1,2,rest}; frame lengths 8..264 (TCP), 2..260 (RTU)",
+			"quick":    "well-formed responses of all 10 functions x {TCP,RTU}: header fields, addresses, counts, payload bytes symbolic; byte-counted payloads (every byte-count value the format allows, not only the specification's maxima): coil payloads {1,2,3,8,249,250,251,255} bytes, register payloads {2,4,6,248,250,252,254} bytes, FC17 (id,additional) lengths {(1,0),(1,1),(2,0),(3,2),(100,100),(249,0),(200,49),(252,0),(253,0),(255,0),(254,1)}; all 128x256 exception frames (function and code symbolic); high-bit and byte-count-mismatch obligations on every frame of length 8..24,255..264 (TCP) / 2..20,251..260 (RTU)",
+			"thorough": "coil payloads 1..255, register payloads 2..254 (even), FC17 id lengths 1..249 step 3 with additional {0,1,2,rest}; frame lengths 8..264 (TCP), 2..260 (RTU)",
 		},
-		Outside:   []string{"frames longer than 264 bytes", "FC17 frames beyond the 260-byte ADU limit", "FC17 layout follows the library's documentation (id length | id | status | additional), the specification leaves it device specific"},
+		Outside:   []string{"frames longer than 264 bytes", "FC17 layout follows the library's documentation (id length | id | status | additional), the specification leaves it device specific"},
 		MinCovers: []string{"well-formed", "exception", "highbit", "mismatch"},
 	})
 }
